@@ -271,7 +271,7 @@ func checkC15(c *Ctx, r *Report) {
 			if fi == nil {
 				continue
 			}
-			ast.Inspect(fi.Decl, func(n ast.Node) bool {
+			w.inspectRegion(fi, func(n ast.Node) bool {
 				cl, ok := n.(*ast.CallExpr)
 				if !ok {
 					return true
@@ -301,7 +301,7 @@ func checkC15(c *Ctx, r *Report) {
 		// the parameter arm calls both param reports
 		viol := "no `if isParamSegment(seg)` arm calling reportParamVsLiterals and reportParamVsParam"
 		var sites []string
-		ast.Inspect(fi.Decl, func(n ast.Node) bool {
+		w.inspectRegion(fi, func(n ast.Node) bool {
 			is, ok := n.(*ast.IfStmt)
 			if !ok || !w.condCalls(fi, pkgPaths+".isParamSegment")(is.Cond) {
 				return true
@@ -348,7 +348,7 @@ func checkC15(c *Ctx, r *Report) {
 		var sites []string
 		var lit *ast.FuncLit
 		var litObj types.Object // the variable the walk closure is bound to (it calls itself through it)
-		ast.Inspect(fi.Decl, func(n ast.Node) bool {
+		w.inspectRegion(fi, func(n ast.Node) bool {
 			if as, ok := n.(*ast.AssignStmt); ok && lit == nil && len(as.Lhs) == 1 && len(as.Rhs) == 1 {
 				if fl, ok := as.Rhs[0].(*ast.FuncLit); ok {
 					if id, ok := as.Lhs[0].(*ast.Ident); ok {
